@@ -451,26 +451,46 @@ def scripts_for(a, n, extra):
     return out
 
 
-def c08(tier, mi, only_aggregates=False):
+def c08(tier, mi, only_aggregates=False, only_arms=False):
+    """Every arm in the dev configuration and again with the crate built by the release profile and the
+    generated programs compiled without debug assertions (the macro expands in the user's crate: a
+    `debug_assert!` in an arm follows the *user's* setting)."""
+    v1, c1 = _c08_profile(tier, mi, only_aggregates, False, only_arms)
+    v2, c2 = _c08_profile(tier, mi, only_aggregates, True, only_arms)
+    for v in v2:
+        v["key"] += ":release-profile"
+        v["what"] += " (crate built with the release profile, program compiled without debug assertions)"
+    cov = dict(c1)
+    for k in ("states", "transitions", "traces_validated_against_impl", "runs", "arms_compiled"):
+        cov[k] = c1[k] + c2[k]
+    cov["distinct_outcomes"] = max(c1["distinct_outcomes"], c2["distinct_outcomes"])
+    cov["profiles"] = ["dev (debug assertions on)", "release crate + programs compiled with -C debug-assertions=off"]
+    return v1 + v2, cov
+
+
+def _c08_profile(tier, mi, only_aggregates, release, only_arms=False):
     repo = mi["repo"]
     arms = parse_arms(os.path.join(repo, "src", "interface", "macros.rs"))
-    rlib, deps = real_rlib()
+    rlib, deps = real_rlib(release)
+    pre = "rel_" if release else ""
     # distinct option combinations (a duplicate arm is unreachable: the first one wins)
     seen = {}
     for a in arms:
         seen.setdefault(arm_name(a), a)
-    progs = {("arm_" + name): gen_arm_program(a) for name, a in seen.items()}
-    progs.update({("cap_" + name): gen_namecap_program(a) for name, a in seen.items()})
-    progs.update({("agg_" + name): gen_aggregate_program(a) for name, a in seen.items()})
+    progs = {(pre + "arm_" + name): gen_arm_program(a) for name, a in seen.items()}
+    progs.update({(pre + "cap_" + name): gen_namecap_program(a) for name, a in seen.items()})
+    progs.update({(pre + "agg_" + name): gen_aggregate_program(a) for name, a in seen.items()})
     if only_aggregates:
-        progs = {k: v for k, v in progs.items() if k.startswith("agg_")}
+        progs = {k: v for k, v in progs.items() if k.startswith(pre + "agg_")}
+    if only_arms:
+        progs = {k: v for k, v in progs.items() if k.startswith(pre + "arm_")}
     built = build_many(progs, rlib, deps)
     viols = []
     runs = []
     for name, a in seen.items():
         if only_aggregates:
             break
-        ok, err, exe = built["arm_" + name]
+        ok, err, exe = built[pre + "arm_" + name]
         if not ok:
             first = next((l for l in err.splitlines() if l.startswith("error")), err[:200])
             viols.append({"key": f"arm:{name}:does-not-compile", "what": f"the fake! arm at macros.rs:{a['line']} ({name}) does not compile for a well-typed use: {first}",
@@ -488,9 +508,9 @@ def c08(tier, mi, only_aggregates=False):
     # name-capture probes: must compile, install, run once and leave scope quietly
     cap_cmds = []
     for name, a in seen.items():
-        if only_aggregates:
+        if only_aggregates or only_arms:
             break
-        ok, err, exe = built["cap_" + name]
+        ok, err, exe = built[pre + "cap_" + name]
         if not ok:
             first = next((l for l in err.splitlines() if l.startswith("error")), err[:200])
             viols.append({"key": f"arm:{name}:user-names-captured:does-not-compile", "what": f"the fake! arm at macros.rs:{a['line']} ({name}) does not compile when the user's own types are called `Ordering` / `AtomicUsize`: {first}",
@@ -508,7 +528,9 @@ def c08(tier, mi, only_aggregates=False):
     # by-value aggregate probes: the fake must receive exactly what the caller passed
     agg_cmds = []
     for name, a in seen.items():
-        ok, err, exe = built["agg_" + name]
+        if only_arms:
+            break
+        ok, err, exe = built[pre + "agg_" + name]
         if not ok:
             first = next((l for l in err.splitlines() if l.startswith("error")), err[:200])
             viols.append({"key": f"arm:{name}:aggregates-by-value:does-not-compile", "what": f"the fake! arm at macros.rs:{a['line']} ({name}) does not compile for a func_type with structs passed by value: {first}",
